@@ -114,6 +114,19 @@ func (o opT) String() string {
 	return fmt.Sprintf("TestAndSet(%s, now%+d)", v, int64(o.dt))
 }
 
+// tas submits val the way obfs4 does: in a buffer the caller recycles (the
+// handshake buffer), overwritten as soon as TestAndSet has returned.
+func tas(f *replayfilter.ReplayFilter, now time.Time, val string) bool {
+	b := make([]byte, len(val), len(val)+32)
+	copy(b, val)
+	r := f.TestAndSet(now, b)
+	b = b[:cap(b)]
+	for i := range b {
+		b[i] = 0xEE
+	}
+	return r
+}
+
 func newInst(ttl time.Duration, seed int64, prefill int) *inst {
 	rnd.Install(rnd.New(seed, "c11"))
 	f, err := replayfilter.New(ttl)
@@ -129,7 +142,7 @@ func newInst(ttl time.Duration, seed int64, prefill int) *inst {
 		for i := 0; i < prefill; i++ {
 			v := "pre-" + strconv.Itoa(i)
 			in.now = in.now.Add(time.Nanosecond)
-			if f.TestAndSet(in.now, []byte(v)) {
+			if tas(f, in.now, v) {
 				panic("prefill collision")
 			}
 			ents = append(ents, mEntry{v, in.now})
@@ -166,7 +179,7 @@ func (in *inst) apply(o opT, light bool) *mc.Failure {
 	if !in.avail {
 		// the filter's private representation is not what the accessor knows:
 		// black-box oracle only (the answers, while the clock is monotone)
-		got := in.f.TestAndSet(in.now, []byte(val))
+		got := tas(in.f, in.now, val)
 		want, strong := in.m.step(val, in.now)
 		stateUnavailable++
 		if strong && got != want {
@@ -183,7 +196,7 @@ func (in *inst) apply(o opT, light bool) *mc.Failure {
 	if !light {
 		pre, _, _ = replayfilter.VerifDump(in.f)
 	}
-	got := in.f.TestAndSet(in.now, []byte(val))
+	got := tas(in.f, in.now, val)
 	want, strong := in.m.step(val, in.now)
 
 	ml, fl, _ := replayfilter.VerifLen(in.f)
